@@ -159,6 +159,10 @@ def eval_finite(case):
     tag = ''
     if kind == 'covering' and any(list(np.argsort(np.argsort(m))) != list(np.argsort(m)) for m in case['index_map']):
         tag = '[index_map entry whose sorting permutation is not self-inverse]'
+    elif kind == 'covering' and any(int(m) != 1 for m in psi.chinfo.mod):
+        cross = max(sum(1 for m in case['index_map'] if min(m) <= b < max(m)) for b in range(max(1, psi.L - 1)))
+        if cross >= 2:
+            tag = '[Z_N charges, several local MPS cross one bond]'
     L = psi.L
     chi = psi.chi
     hist.append('chimax=%d' % (max(chi) if chi else 1))
